@@ -14,3 +14,9 @@ claim("C17", "post-condition monitors on every ROI helper with numpy indexing as
       "all pairs of slices for the intersections, pads and scales; point envelopes are judged against an unbounded-integer model and stated predicates "
       "(inside image, contains in-image points, padding, alignment, non-finite ignored) with outliers up to 1e300.",
       _TB + " Stepped slices are outside the statement and only counted.", "DESIGN.md 5/C17")
+
+claim("C04", "reference-model monitor: counting-array brute force over real Tiles/VariableSizedTiles/GeoboxTiles objects (incl. instances created inside library code, recorded by an __init__ hook) and plain-numpy mosaics for BlockAssembler",
+      "1-D exhaustive regular tilings (N<=24 quick / <=120 thorough, every tile size up to N+10) and all compositions of totals <=6/9 as variable tilings, each "
+      "checked pixel by pixel (painted exactly once, locate inverse of region lookup, chunks, crop/clip re-basing); GeoboxTiles tiles compared with independently "
+      "computed crops of the parent; ~2e3/3e4 seeded block mosaics (subsets of blocks x windows x dtypes x fill x axis) compared with numpy assignment.",
+      _TB + " GeoBoxes reached through two different translation chains are compared to 1e-6 px, not bit for bit.", "DESIGN.md 5/C04")
